@@ -34,6 +34,7 @@ fn run_typed<F: TF>(c: &Case, st: &mut Stats) -> CheckResult
 where
     F::Signed: std::fmt::Debug + 'static,
     F::Float: std::fmt::Debug + 'static,
+    F::Sample: std::fmt::Debug,
 {
     let mut b = Built::default();
     let l = model_len(&c.tree);
@@ -98,6 +99,8 @@ where
                 }
             }
             none5(&mut it, &format!("until_exhausted() over a signal of {} frames", len))?;
+            let reference: Vec<F> = (0..len).map(|k| model::<F>(&c.tree, k)).collect();
+            vp_core::iterlaws::iter_laws("until_exhausted()", || build::<F>(&c.tree, &mut Built::default()).until_exhausted(), &reference, true)?;
         }
         Mode::Take(n) => {
             let sig = build::<F>(&c.tree, &mut b);
@@ -110,6 +113,8 @@ where
                 }
             }
             none5(&mut it, &format!("take({})", n))?;
+            let reference: Vec<F> = (0..n).map(|k| model::<F>(&c.tree, k)).collect();
+            vp_core::iterlaws::iter_laws("take(n)", || build::<F>(&c.tree, &mut Built::default()).take(n as usize), &reference, true)?;
         }
         Mode::InterleavedIter | Mode::NextSample => {
             let len = match l {
@@ -153,6 +158,9 @@ where
             ensure!(got.len() as u64 == len * chans, "interleaved output yielded {} samples, expected frames x channels = {} x {}", got.len(), len, chans);
             ensure!(got == expect, "interleaved samples differ from the frames in channel order");
             ensure!(nones == 5, "interleaved output produced a sample after returning None");
+            if c.mode == Mode::InterleavedIter {
+                vp_core::iterlaws::iter_laws("into_interleaved_samples().into_iter()", || build::<F>(&c.tree, &mut Built::default()).into_interleaved_samples().into_iter(), &expect, true)?;
+            }
         }
         Mode::Lift => {
             let len = leaf_lens.first().copied().flatten().unwrap_or(0);
